@@ -161,6 +161,8 @@ Definition emplace_all (kvs : list (path * pid)) (acc : list (path * pid)) : lis
      for (sm_kv : submodel_kv_)
        for (p_kv : sm_kv.second->get_all_parameters())
          params.emplace({sm_kv.first} ++ p_kv.first, p_kv.second);                       *)
+Definition single_key (kv : name * pid) : path * pid := ([fst kv], snd kv).
+Definition cons_key (snm : name) (pk : path * pid) : path * pid := (snm :: fst pk, snd pk).
 Fixpoint get_all_g (w : world) (fuel : nat) (m : mid) : option (list (path * pid)) :=
   match fuel with
   | O => None
@@ -171,11 +173,11 @@ Fixpoint get_all_g (w : world) (fuel : nat) (m : mid) : option (list (path * pid
        | (snm, c) :: rest =>
          match get_all_g w f c with
          | None => None
-         | Some sub => go rest (emplace_all (map (fun pk => (snm :: fst pk, snd pk)) sub) acc)
+         | Some sub => go rest (emplace_all (map (cons_key snm) sub) acc)
          end
        end)
       (submodel_kv (getm w m))
-      (emplace_all (map (fun kv => ([fst kv], snd kv)) (param_kv (getm w m))) [])
+      (emplace_all (map single_key (param_kv (getm w m))) [])
   end.
 Definition get_all_parameters (w : world) (m : mid) := get_all_g w (fuel_of w) m.
 (* "Currently this function returns all parameters." *)
